@@ -1,5 +1,163 @@
-(* Eval09.v — evaluation of C09 observations (stub: replaced when C09 is built). *)
+(* Eval09.v — evaluation of C09 observations.
+     (run <plugin> (<argument types>) <class>)   one goderive run on a singleton package
+     (broken <mutation> <n> <class>)             one goderive run on a broken user file
+   class = ok | badfile | adderr | generr | cannot | loaderr | crash. *)
 From Verif Require Import Base Sexp.
+From Verif.Validate Require Import Aty Add Gen Spec.
 Open Scope string_scope.
 
-Definition eval09 (e : sexp) : verdict := bad_line.
+Definition kind_of (s : string) : option bkind :=
+  if s =? "bool" then Some KBool else if s =? "int" then Some KInt else
+  if s =? "int8" then Some KInt8 else if s =? "int16" then Some KInt16 else
+  if s =? "int32" then Some KInt32 else if s =? "int64" then Some KInt64 else
+  if s =? "uint" then Some KUint else if s =? "uint8" then Some KUint8 else
+  if s =? "uint16" then Some KUint16 else if s =? "uint32" then Some KUint32 else
+  if s =? "uint64" then Some KUint64 else if s =? "uintptr" then Some KUintptr else
+  if s =? "float32" then Some KFloat32 else if s =? "float64" then Some KFloat64 else
+  if s =? "complex64" then Some KComplex64 else if s =? "complex128" then Some KComplex128 else
+  if s =? "string" then Some KString else if s =? "unsafeptr" then Some KUnsafePtr else
+  if s =? "u-bool" then Some KUBool else if s =? "u-int" then Some KUInt else
+  if s =? "u-rune" then Some KURune else if s =? "u-float" then Some KUFloat else
+  if s =? "u-complex" then Some KUComplex else if s =? "u-string" then Some KUString else
+  if s =? "u-nil" then Some KUNil else None.
+
+Definition plugin_of (s : string) : option plugin :=
+  if s =? "all" then Some PAll else if s =? "any" then Some PAny else
+  if s =? "apply" then Some PApply else if s =? "clone" then Some PClone else
+  if s =? "compare" then Some PCompare else if s =? "compose" then Some PCompose else
+  if s =? "contains" then Some PContains else if s =? "curry" then Some PCurry else
+  if s =? "deepcopy" then Some PDeepcopy else if s =? "do" then Some PDo else
+  if s =? "dup" then Some PDup else if s =? "equal" then Some PEqual else
+  if s =? "filter" then Some PFilter else if s =? "flip" then Some PFlip else
+  if s =? "fmap" then Some PFmap else if s =? "gostring" then Some PGostring else
+  if s =? "hash" then Some PHash else if s =? "intersect" then Some PIntersect else
+  if s =? "join" then Some PJoin else if s =? "keys" then Some PKeys else
+  if s =? "max" then Some PMax else if s =? "mem" then Some PMem else
+  if s =? "min" then Some PMin else if s =? "pipeline" then Some PPipeline else
+  if s =? "set" then Some PSet else if s =? "sort" then Some PSort else
+  if s =? "takewhile" then Some PTakewhile else if s =? "toerror" then Some PToerror else
+  if s =? "traverse" then Some PTraverse else if s =? "tuple" then Some PTuple else
+  if s =? "uncurry" then Some PUncurry else if s =? "union" then Some PUnion else
+  if s =? "unique" then Some PUnique else None.
+
+Definition dir_of (z : Z) : option cdir :=
+  if (z =? 0)%Z then Some DBoth else if (z =? 1)%Z then Some DSend else
+  if (z =? 2)%Z then Some DRecv else None.
+
+Fixpoint parse_ty (fuel : nat) (e : sexp) : option aty :=
+  match fuel with
+  | O => None
+  | S f =>
+      match e with
+      | L [Sym c; Sym k] => if c =? "b" then option_map ABasic (kind_of k) else None
+      | L [Sym c] => if c =? "err" then Some AErr else None
+      | L [Sym c; Num n] => if c =? "if" then Some (AIface (Z.to_N n)) else None
+      | L [Sym c; Num id; Num er; u] =>
+          if c =? "n" then option_map (ANamed (Z.to_N id) (Z.eqb er 1)) (parse_ty f u) else None
+      | L [Sym c; L l] =>
+          if c =? "st" then option_map AStruct (parse_tys f l)
+          else if c =? "tup" then option_map ATuple (parse_tys f l)
+          else if c =? "p" then option_map APtr (parse_ty f (L l))
+          else if c =? "s" then option_map ASlice (parse_ty f (L l))
+          else None
+      | L [Sym c; Num n; t] =>
+          if c =? "a" then option_map (AArray (Z.to_N n)) (parse_ty f t)
+          else if c =? "ch" then
+            match dir_of n, parse_ty f t with Some d, Some t' => Some (AChan d t') | _, _ => None end
+          else None
+      | L [Sym c; k; v] =>
+          if c =? "m" then
+            match parse_ty f k, parse_ty f v with Some k', Some v' => Some (AMap k' v') | _, _ => None end
+          else None
+      | L [Sym c; L ps; L rs; Num v] =>
+          if c =? "sig" then
+            match parse_tys f ps, parse_tys f rs with
+            | Some p, Some r => Some (ASig p r (Z.eqb v 1))
+            | _, _ => None
+            end
+          else None
+      | _ => None
+      end
+  end
+with parse_tys (fuel : nat) (l : list sexp) : option atys :=
+  match fuel with
+  | O => None
+  | S f =>
+      match l with
+      | [] => Some TNil
+      | e :: r =>
+          match parse_ty f e, parse_tys f r with
+          | Some t, Some ts => Some (TCons t ts)
+          | _, _ => None
+          end
+      end
+  end.
+
+Definition fuel40 : nat := 40.
+
+(* coarse class of an observation *)
+Definition coarse (c : string) : option string :=
+  if c =? "ok" then Some "ok" else if c =? "badfile" then Some "badfile" else
+  if (c =? "adderr") || (c =? "generr") || (c =? "cannot") || (c =? "loaderr") then Some "err" else
+  if c =? "crash" then Some "crash" else None.
+
+Definition plugin_name (e : sexp) : string := match e with Sym s => s | _ => "?" end.
+
+Definition eval09 (e : sexp) : verdict :=
+  match e with
+  | L [Sym k; Sym pn; L args; Sym cls] =>
+      if k =? "run" then
+        match plugin_of pn, parse_tys fuel40 args, coarse cls with
+        | Some p, Some ts, Some real =>
+            let typs := to_list ts in
+            if negb (forallb wf typs) then bad_line else
+            let m := run_model p typs in
+            let known := known_class p typs in          (* name of an open finding class, or "" *)
+            let c01 := c01_class p typs in
+            let predicted :=
+              match m with
+              | Crash => "crash"
+              | Err => "err"
+              | Ok => if negb (known =? "") || c01 then "badfile" else "ok"
+              end in
+            let spec_ok :=
+              if real =? "crash" then false
+              else if real =? "badfile" then false
+              else if real =? "ok" then negb (must_report p typs)
+              else true in
+            (* outside the guard: findings of C01, and the open finding classes of C09 (the
+               check then requires the class to be listed, see vcheck.classify) *)
+            let guard := negb ((real =? "badfile") && (c01 || negb (known =? ""))) in
+            {| v_known := true;
+               v_model_ok := predicted =? real;
+               v_spec_ok := spec_ok;
+               v_guard := guard;
+               v_model := Sym predicted;
+               v_tag := (if negb (known =? "") && (real =? "badfile") then "known:" ++ known ++ "/" ++ pn
+                         else if c01 && (real =? "badfile") then "c01:" ++ pn
+                         else pn ++ "/" ++ predicted ++ "/" ++ arm_tag p typs) |}
+        | _, _, _ => bad_line
+        end
+      else bad_line
+  | L [Sym k; Sym mut; Num _; Sym cls] =>
+      if k =? "broken" then
+        match coarse cls with
+        | Some real =>
+            (* the loader's behaviour on broken files is outside the model: only the property *)
+            let ok := negb ((real =? "crash") || (real =? "badfile")) in
+            {| v_known := true; v_model_ok := true; v_spec_ok := ok; v_guard := true;
+               v_model := Sym "no-crash"; v_tag := "broken/" ++ mut ++ "/" ++ real |}
+        | None => bad_line
+        end
+      else if k =? "undef" then
+        (* a call whose argument has no type (undefined identifier): derive/find.go defers it,
+           generatePackage must end with "cannot generate" *)
+        match coarse cls with
+        | Some real =>
+            {| v_known := true; v_model_ok := real =? "err"; v_spec_ok := real =? "err"; v_guard := true;
+               v_model := Sym "err"; v_tag := "undefined-argument/" ++ real |}
+        | None => bad_line
+        end
+      else bad_line
+  | _ => bad_line
+  end.
